@@ -25,6 +25,7 @@ RULE = ('(a) explicit-state BFS, case = (terminal state, token); non-trivial = t
         'inside an escape sequence or inside a multi-byte character')
 ASSUMPTIONS = ['token alphabet as listed in bounds; screens up to 3x4; "randomly on larger screens" is sampling and deliberately not done',
                'the emulator appends to ./log on unknown sequences: the check runs in /verif/.scratch']
+STATES_MEANING = 'distinct terminal states (grid, cursor, saved cursor, scroll region, FSM state, parameter stack, decoder state), deduplicated, summed over screens; plus one per chunk-independence partition'
 REQUIRED_FLAGS = {'cut_inside_escape': 1, 'cut_inside_multibyte': 1, 'degenerate_param': 1, 'truncated_sequence': 1,
                   'unknown_sequence': 1, 'scrolled': 1}
 
